@@ -21,7 +21,7 @@ CLAIMS = {
         note="Trusted: refmodel/nip01ser.go (written from the NIP text, no encoding/json), btcec's schnorr signer as BIP-340 reference, SHA-256. The relay's admission gate (relay.go) is exercised by the ws-gate part (E3).",
         technique=ENUM_TECH + "; exhaustive call sequences up to a depth; stateless model checking of concurrent callers with statement-level scheduling points", design="DESIGN.md §4 C01"),
     "C03": dict(engine="seqx", category="model_checking",
-        text="Explicit-state BFS over every insertion history (depth 3 quick / 5 thorough, capacities 1,2,3,(4),100; capacities <= 4 reach a fixpoint) over a 31-event colliding alphabet and a 14-event focus alphabet, each state rebuilt on a fresh real EventCache and keyed on a dump of the complete internal state; in every state 841 filter lists are answered by Find and compared with a tie-tolerant specification over the retained set (both access paths).",
+        text="Explicit-state BFS over every insertion history (depth 3 quick / 5 thorough, capacities 1,2,3,(4),100; capacities <= 4 reach a fixpoint) over a 31-event colliding alphabet and a 14-event focus alphabet, each state rebuilt on a fresh real EventCache and keyed on a dump of the complete internal state; in every state 841 filter lists are answered by Find and compared with a tie-tolerant specification over the retained set (both access paths). Plus big caches (70-1025 retained events, 1-65 per timestamp): queries vs the specification over the cache's own listing vs the Dump->Restore twin.",
         note="Trusted: refmodel.MatchFilter and the limit-newest union oracle. Alphabet- and depth-bounded. Ties at a limit cut accept any choice.",
         technique="explicit-state model checking of the implementation: BFS over operation histories replayed on fresh real objects, full internal state as state key, reference-model oracle in every state", design="DESIGN.md §4 C03-C05"),
     "C04": dict(engine="seqx", category="model_checking",
@@ -53,7 +53,7 @@ CLAIMS = {
         note="Enumerates frames/outputs/configurations, not interleavings inside net/http and coder/websocket; net.Pipe instead of TCP. Frames above the size limit (library closes) are unclaimed.",
         technique="bounded exhaustive enumeration of frame and output sequences on the real WebSocket stack under virtual time with exact quiescence detection", design="DESIGN.md §4 C12"),
     "C13": dict(engine="vsched", category="model_checking",
-        text="Handlers (E1): 9 real compositions (Default, Cache, Router, merges, SQLite in memory, the composition of cmd/mocrelay, SQLite whose bulk-insert goroutine has stopped) x 6 wrappers plus every provided middleware singly plus four wrappers configured to refuse parts of the history (the middleware's own rejection in flight, peer stalling after 0-3 reads), serving [REQ, EVENT, COUNT, CLOSE, REQ] while a second connection publishes; the session is ended by an environment task enabled from the start (every cut point) - cancel with draining or stalled peer, or inbound close; all schedules up to a delay or deviation bound per job (steps of the environment task cost nothing, so every cut point of every explored schedule is reached); at quiescence ServeNostr has returned, no task spawned under the session is alive, router registry and Prometheus gauges are back. WebSocket (E3): SendTimeout x PingDuration (incl. disabled) x handler x stall point in virtual time: the stalled peer is dropped by T0+SendTimeout(+allowance), ServeHTTP returns, no goroutine left; every cut point of a 4-frame history for client close / connection cut.",
+        text="Handlers (E1): 10 real compositions (Default, Cache, Router, merges, SQLite in memory, the composition of cmd/mocrelay, SQLite whose bulk-insert goroutine has stopped, a merge with two default handlers) x 6 wrappers plus every provided middleware singly plus four wrappers configured to refuse parts of the history (the middleware's own rejection in flight, peer stalling after 0-3 reads), serving [REQ, EVENT, COUNT, CLOSE, REQ] while a second connection publishes; the session is ended by an environment task enabled from the start (every cut point) - cancel with draining or stalled peer, or inbound close; all schedules up to a delay or deviation bound per job (steps of the environment task cost nothing, so every cut point of every explored schedule is reached); at quiescence ServeNostr has returned, no task spawned under the session is alive, router registry and Prometheus gauges are back. WebSocket (E3): SendTimeout x PingDuration (incl. disabled) x handler x stall point in virtual time: the stalled peer is dropped by T0+SendTimeout(+allowance), ServeHTTP returns, no goroutine left; every cut point of a 4-frame history for client close / connection cut.",
         note="Goroutines inside database/sql, go-sqlite3, net/http and coder/websocket are not scheduled by E1; E3 enumerates configurations and cut points, not interleavings of the network stack.",
         technique=E1_TECH + "; plus exhaustive enumeration of configurations and cut points on the real WebSocket stack under virtual time", design="DESIGN.md §4 C13"),
     "C15": dict(engine="vsched", category="model_checking",
@@ -61,12 +61,12 @@ CLAIMS = {
         note="Sequentially consistent interleavings only; the race pass samples. exhaustive=false in the evidence because of the sampled part.",
         technique=E1_TECH + " with statement-level scheduling points; brute-force linearizability checking; free-running -race pass as complement", design="DESIGN.md §4 C15"),
     "C16": dict(engine="vsched", category="model_checking",
-        text="Every client message sequence up to length 3/4 over 13 messages (incl. a REQ for which the SQLite query fails) through the real CacheHandler (canonical schedule, all schedules for length 2 and a core at length 3) and up to length 2/3 through the real SQLite handler (stepwise with quiescence, pipelined with a delay bound): the reply stream is the in-order concatenation of per-request replies. Dump/restore: in every state of the C03 exploration a dumped and restored cache answers the whole filter battery identically.",
+        text="Every client message sequence up to length 3/4 over 13 messages (incl. a REQ for which the SQLite query fails) through the real CacheHandler (canonical schedule, all schedules for length 2 and a core at length 3) and up to length 2/3 through the real SQLite handler (stepwise with quiescence, pipelined with a delay bound): the reply stream is the in-order concatenation of per-request replies. Dump/restore: in every state of the C03 exploration, and for big caches (70-1025 events with ties across every power-of-two boundary), a dumped and restored cache answers the filter battery identically.",
         note="Cache: 'newly stored' and stored matches are taken from the cache run sequentially (decided against the spec by C03-C05).",
         technique=E1_TECH + "; explicit-state BFS for dump/restore", design="DESIGN.md §4 C16"),
     "C14": dict(engine="faultsql", category="fault_enumeration",
         text="For 14 batches x 3 pre-states every driver call (begin, each prepare, each exec, commit) is failed in modes error and connection-drop (thorough: process kill in a child process, and second faults during the retry): answers after the failure equal answers before; retry and re-insertion equal one successful insertion. Close/reopen at every subset of batch boundaries of all histories of <= 3 batches over an 8-batch alphabet: answers equal the never-reopened run, seed stable.",
-        note="Crash points are driver-call boundaries; torn pages inside SQLite's pager are trusted to SQLite. The handler's retry loop is covered by the sqlite-retry part under virtual time; a batch of the handler's default size (1000 events) is covered at a stride of fault points by sqlite-bigbatch.",
+        note="Crash points are driver-call boundaries; torn pages inside SQLite's pager are trusted to SQLite. The handler's retry loop is covered by the sqlite-retry part under virtual time; a batch of the handler's default size (1000 events) is covered at a stride of fault points by sqlite-bigbatch; in every state of the C06 exploration every batch of the history is delivered once more and no answer may change (sqlite-bfs part).",
         technique="exhaustive fault-point enumeration with a fault-injecting database/sql driver plus exhaustive enumeration of reopen placements", design="DESIGN.md §4 C14"),
     "C10": dict(engine="seqx", category="exploration",
         text="All token strings up to length 3/4 over a 34-token JSON alphabet (bare and inside 37 message frames), the complete single-point mutation neighbourhood of every valid test-data line and generated message, and a product of protocol values for all 14 message types, events and filters, through all 29 decoder entry points under recover(): no panic, completely filled values, decode-encode-decode stability, value round trip.",
